@@ -75,6 +75,14 @@ Definition validate (H : hashes) (plaintext : bool) (st : store) (u p : str) : b
         (ok && permitted usr, st')
   end.
 
+(* credential change as the admin handlers do it: ReadUser, replace the Password field, WriteUser
+   (internal/server/admin/users/update.go, SetUser).  An unknown user is left alone. *)
+Definition change_password (st : store) (n : str) (stored : str) : store :=
+  match lookup n st with
+  | Some usr => write {| uname := uname usr; upass := stored; uperms := uperms usr |} st
+  | None => st
+  end.
+
 (* ------------------------------------------------------------------ the specification side *)
 Inductive cred := CBcrypt (h : str) | CPlain (text : str) | CLegacy (hex : str).
 Definition classify (s : str) : cred :=
